@@ -621,7 +621,12 @@ pub struct LMember {
 }
 
 fn members_u1(env: &Env) -> Vec<LMember> {
-    env.u.iter().map(|m| LMember { label: m.label.to_string(), meta: m.meta, ident: format!("{:?}", vuniverse::u3::normal_form(&vuniverse::u3::parse(m.label))) }).collect()
+    let mut v: Vec<LMember> = env.u.iter().map(|m| LMember { label: m.label.to_string(), meta: m.meta, ident: format!("{:?}", vuniverse::u3::normal_form(&vuniverse::u3::parse(m.label))) }).collect();
+    // roots into a chain of 260 hand-written types (one root nests several hundred type resolutions): depth-related behaviour
+    for (label, meta) in vuniverse::chain::roots() {
+        v.push(LMember { label: label.to_string(), meta, ident: if label.starts_with("Vec<") { format!("[{}]", &label[4..label.len() - 1]) } else { label.to_string() } });
+    }
+    v
 }
 
 /// U1 + the U3 table (built-in constructors nested to depth 2; thorough: the larger table): some thousand roots,
@@ -775,10 +780,18 @@ fn long_plan(env: &Env, which: &str, thorough: bool) -> (Vec<LMember>, Vec<(usiz
 pub fn explore_long(env: &'static Env, pid: &'static str, which: &'static str, thorough: bool) -> (u64, u64, usize, usize, Vec<Violation>) {
     use rayon::prelude::*;
     let (u, cases, sweep) = long_plan(env, which, thorough);
+    let u = std::sync::Arc::new(u);
     let res: Vec<(u64, usize, Option<Violation>)> = cases
         .par_iter()
         .map(|(rot, rev)| {
-            let r = catch(std::panic::AssertUnwindSafe(|| long_history(&u, which, pid, *rot, *rev, sweep)));
+            // deep type graphs recurse deeply inside the library: every history on a thread with a generous stack
+            let (u2, rot2, rev2) = (u.clone(), *rot, *rev);
+            let r = std::thread::Builder::new()
+                .stack_size(512 << 20)
+                .spawn(move || catch(std::panic::AssertUnwindSafe(|| long_history(&u2, which, pid, rot2, rev2, sweep))))
+                .unwrap()
+                .join()
+                .unwrap_or_else(|_| Err("thread died".into()));
             let case = json!({"kind": "u1-long", "universe": which, "thorough": thorough, "rotation": rot, "reversed": rev});
             match r {
                 Ok((s, t, f)) => (s, t, f.map(|(key, msg)| Violation { key, msg, case })),
